@@ -23,7 +23,9 @@ claim("C11",
       "can_read/can_write/_check_header/map_file_mode are extracted from the source (every abstract path) and compared "
       "cell by cell with the table written from the statement (27 orderings x 3 modes x format tag x id validity); "
       "File.__init__'s (exists, mode) -> refuse/create+truncate/open(flag) decision and the single-gate rule (only "
-      "File.__init__ opens HDF5 files) are checked on all paths. NOT decided: that libhdf5 refuses every write under "
+      "File.__init__ opens HDF5 files) are checked on all paths. "
+      "ALSO: no handler around a mutating h5py operation in the hdf5 layer goes on without raising (the refusal of a write on a read-only file is not swallowed); container lookups keep no per-session table (reads are the same in every mode). "
+      "NOT decided: that libhdf5 refuses every write under "
       "ACC_RDONLY, byte identity of a read-only file.",
       "decision-table extraction by path-sensitive abstract interpretation (ast), exhaustive comparison with spec table; "
       "who-may-call over resolved call graph", "DESIGN.md#c11")
@@ -31,7 +33,9 @@ claim("C19",
       "Static decision, on every abstract path of every named setter (35 class x attribute instances) and of every "
       "mutating API member (~200): a write is followed by a stamp of the entity's own updated_at iff the auto-update "
       "switch was tested true; no unguarded stamp outside creation/force_*; created_at is written only by creation / "
-      "force_created_at; the two time conversion functions agree on format and epoch. NOT decided: monotonicity under a "
+      "force_created_at; the two time conversion functions agree on format and epoch. "
+      "ALSO: force_updated_at / force_created_at write the clock (no time given) or the given time and nothing read from the file; File.__init__ stamps created_at / updated_at only on a path that found the key absent from the header. "
+      "NOT decided: monotonicity under a "
       "real clock, value round trip of forced timestamps beyond format agreement.",
       "path-sensitive interprocedural abstract interpretation over the AST (must-follow / guarded-by on all paths), "
       "resolved call graph prefilter", "DESIGN.md#c19")
@@ -44,7 +48,9 @@ claim("C07",
       "567 cells); SliceMode->IndexMode map; the three range_indices return None exactly on a failed lookup or "
       "start>end and otherwise (start, end) obtained with GreaterOrEqual / Less|LessOrEqual; every result-relevant "
       "guard of the sampled dimension depends on position, offset and interval. Guards are evaluated on one "
-      "representative per region (the extracted guards, never repository code). The conversions read ticks/labels through the accessors (linked values when linked); range_indices answers 'empty' only after a failed lookup or after comparing the two lookup results; descriptors keep nothing read from the file. NOT decided: behaviour for reals "
+      "representative per region (the extracted guards, never repository code). The conversions read ticks/labels through the accessors (linked values when linked); range_indices answers 'empty' only after a failed lookup or after comparing the two lookup results; descriptors keep nothing read from the file. "
+      "ALSO: the returned expression of SampledDimension.position_at, evaluated on an (offset, interval, index) grid down to intervals of 4e-11 and fed back into the extracted table of index_of, gives the index again; tick vectors with spacing below any default floating-point tolerance are among the representatives. "
+      "NOT decided: behaviour for reals "
       "outside the region representatives beyond what the guards' structure implies, np.isclose tolerance effects, "
       "position_at/axis inverse pair.",
       "decision-table extraction by path-sensitive abstract interpretation; region-exhaustive comparison with a spec "
@@ -66,7 +72,9 @@ claim("C02",
       "persistent attributes read storage on every path (no cached values); the hdf5 layer's attribute contract "
       "(None deletes, else the value is stored under the given name) is checked on the layer's own decision table; "
       "File.close/__exit__ reach h5py close on all normal paths; container classes never store to self outside "
-      "__init__; the layer never modifies an attribute in place and never unlinks a container group as a whole; removing an optional link never removes the entity that carried it; no accessor (190 getters) creates a storage group; a created property holds the values it was given on every creating path. NOT decided: equality of the complete observable state before/after reopen, value encodings.",
+      "__init__; the layer never modifies an attribute in place and never unlinks a container group as a whole; removing an optional link never removes the entity that carried it; no accessor (190 getters) creates a storage group; a created property holds the values it was given on every creating path. "
+      "ALSO: File.close / __exit__ write nothing to the file; container members fill no table reachable from the container or its file with what they read. "
+      "NOT decided: equality of the complete observable state before/after reopen, value encodings.",
       "path-sensitive abstract interpretation of every accessor (storage-key extraction, must-write / must-read on all "
       "paths)", "DESIGN.md#c02")
 claim("C12",
@@ -105,7 +113,9 @@ claim("C04",
       "the item's whole subtree; link-list deletion never reaches delete_all and unlinks only in the list's own "
       "group; every role-link unlink on an entity's own group (13 API members) passes delete_if_empty=False (the "
       "default removes the owner); delete_all unlinks exactly the children whose entity_id is in the id list, "
-      "walking everything below its receiver; wrong-kind refusals precede any deletion. NOT decided: that every "
+      "walking everything below its receiver; wrong-kind refusals precede any deletion. "
+      "ALSO: every owning container class of the package (subclasses of Container outside the link-list family) deletes only the id of a member looked up in that container or of an entity object of its kind. "
+      "NOT decided: that every "
       "link kind present in a concrete file is reachable by the HDF5 walk.",
       "must-end-in / event-absence / argument-value checks on all abstract paths; guard dependency of the unlink",
       "DESIGN.md#c04")
@@ -146,7 +156,9 @@ claim("C15",
       "table over (coefficients present, origin truthy): calibrate iff either, a calibrated read is the conversion "
       "to double of the raw read, an uncalibrated one is the raw read unconverted; the origin is subtracted before "
       "numpy.polynomial.polynomial.polyval(data, coefficients) (ascending coefficients); the calibration attributes "
-      "are read from storage on every read (no per-handle memory). NOT decided: the numeric result, commutation of "
+      "are read from storage on every read (no per-handle memory). "
+      "ALSO: the coefficients are written with the double-precision element type; a read returns raw values only on a path that found the coefficients absent and the origin unset. "
+      "NOT decided: the numeric result, commutation of "
       "slicing and calibration as values.",
       "stack/ordering of storage events and guard tables on all abstract paths (path-sensitive abstract "
       "interpretation); who-may-read over the resolved call graph; stateless-handle classification", "DESIGN.md#c15")
@@ -160,7 +172,9 @@ claim("C06",
       "expansion equals NumPy's for ranks 1..4; window validity table of DataView.__init__ (given, non-empty, rank, "
       "stop <= extent); the read and write side agree on 'no index' by identity with None; an invalid view reads empty "
       "and refuses writes before touching storage; HDF5 subscript ValueError/TypeError surface as IndexError; only "
-      "0-dimensional read results are reshaped to one element; a view keeps nothing it has read. NOT decided: h5py's "
+      "0-dimensional read results are reshaped to one element; a view keeps nothing it has read. "
+      "ALSO: indexed reads and assignments of arrays never change the extent. "
+      "NOT decided: h5py's "
       "own handling of the transformed index, fancy (list/array) indices, value equality with NumPy on real data.",
       "decision-table extraction by path-sensitive abstract interpretation; evaluation of the extracted guards on "
       "representatives against Python slice semantics; sibling comparison; stateless-handle classification",
@@ -174,7 +188,9 @@ claim("C10",
       "str -> String, everything else refused); extend_values enlarges to old+new and writes into [old : old+new] "
       "after the resize, the values setter resizes to the shape of the new list before writing it, delete_values "
       "resizes to 0; the Section dictionary protocol (len, del, in, items, [], []=) delegates to the property and "
-      "subsection containers as stated; Section/Property keep no per-handle tables. NOT decided: the values and types "
+      "subsection containers as stated; Section/Property keep no per-handle tables. "
+      "ALSO: the type compared with the property's stored type is the new values' own type, and no accepting path found them different (no silent conversion of 'castable' arrays). "
+      "NOT decided: the values and types "
       "read back from HDF5 (NumPy/h5py conversions).",
       "event order / guard presence on all abstract paths; decision-table extraction evaluated on the type lattice; "
       "event arguments; stateless-handle classification", "DESIGN.md#c10")
@@ -232,7 +248,9 @@ claim("C18",
       "the alias-dimension conversion creates the link with id, type, index and the hard link to the parent array "
       "before it deletes the alias link, after which the collector's predicate is false; the property conversion reads "
       "all eight old fields and each one reaches what is written (unless found empty), replaces the dataset under the "
-      "same name, and chooses between keeping all per-value extras or a single one by exact comparison. NOT decided: "
+      "same name, and chooses between keeping all per-value extras or a single one by exact comparison. "
+      "ALSO: in every conversion closure, what one file session (the events between two opens of the file) writes of an old record was read in that same session once the record has been replaced (no old-record data carried in memory across sessions: resumable per record). "
+      "NOT decided: "
       "content equality before/after on real files, behaviour of an interruption inside one HDF5 call.",
       "returned-list / scheduling decisions, must-precede and read-to-write data flow on all abstract paths (raw h5py "
       "mode of the path-sensitive abstract interpreter); who-may-write over the resolved call graph", "DESIGN.md#c18")
@@ -254,7 +272,9 @@ claim("C08",
       "result terms on enumerated scenarios; argument provenance; enum exhaustiveness", "DESIGN.md#c08")
 
 claim("C01",
-      "The element-wise round trip through NumPy/h5py/HDF5 is NOT decided. Decided statically, on every abstract path, "
+      "The element-wise round trip through NumPy/h5py/HDF5 is "
+      "ALSO: indexed reads and assignments never change the array's extent. "
+      "NOT decided. Decided statically, on every abstract path, "
       "are the storage layout and plumbing every write/read path relies on: compression -- conditional-constant "
       "propagation of the Compression enum through the five links (File.__init__: Auto -> No; File.create_block: Auto -> "
       "the file's; Block.create_data_array: Auto -> the block's; DataArray.create_new: filter flag iff DeflateNormal; "
